@@ -99,7 +99,7 @@ def storeOp? (s : String) : Option (Nat × Bytes × Bool) :=
   | _ => none
 
 /- `store <qtype> <qclass> <chain> <history>`: the reply to the LAST query of the history (Model.C03Store, as built:
-the stored message has its own Question slice) -/
+the stored message has its own Question slice, a cache stores only a response that is new since the rest of its chain ran) -/
 /-- `sel <id> <qr> <opcode> <rd> <cd> <nq> <name> <qtype> <qclass> <nAns> <nNs> <extras> <chain> <outA> <outAAAA> <outOther>` -/
 def handle : List String → String
   | ["sel", id, qr, opc, rd, cd, nq, name, qt, qc, na, nn, ex, chain, oa, o4, oo] =>
@@ -127,7 +127,7 @@ def handle : List String → String
   | ["store", qt, qc, chain, ops] =>
     match qt.toNat?, qc.toNat?, storeChain? (chain.splitOn ",") 0, (ops.splitOn ",").mapM storeOp? with
     | some qt, some qc, some chain, some ops =>
-      match (Model.C03Store.history true chain ops {}).getLast? with
+      match (Model.C03Store.history true true chain ops {}).getLast? with
       | some (id, name, rc) => s!"id={id} q={Hex.encode name}/{qt}/{qc} qr=1 ra=1 rcode={rc}"
       | none => "bad-op"
     | _, _, _, _ => "bad-op"
